@@ -101,7 +101,7 @@ func RunConc(w *tr.Writer, st *ConcStats, tid int, r *rand.Rand, withMissing boo
 		return nil
 	})
 	// snapshot judges a change set (new nodes by key) read by GetChanges / written by SaveChanges as an atomic
-	// observation: the trie it describes must be complete, hold no node outside it, and its content is returned
+	// observation: the trie it describes must be complete, and its content is returned
 	// for the linearizability search like the result of an iteration
 	snapshot := func(ret map[string]any, root []byte, snap map[string][]byte) {
 		used := map[string]bool{}
@@ -114,7 +114,8 @@ func RunConc(w *tr.Writer, st *ConcStats, tid int, r *rand.Rand, withMissing boo
 		}
 		wr := bridge.WalkMPT(root, get, -1)
 		ret["snap"] = true
-		ret["snapok"] = wr.Missing == 0 && wr.KeysOK && len(used) == len(snap)
+		// (nodes of the change set that the walk did not use are tolerated: keeping garbage is not an atomicity matter)
+		ret["snapok"] = wr.Missing == 0 && wr.KeysOK
 		ret["items"] = ItemsJSON(wr.Term.Items())
 	}
 	var wg sync.WaitGroup
